@@ -622,6 +622,21 @@ func runC12(c *fw.Ctx) {
 			drive.Protect(func() { o.Set("k", uns[i]) })
 			drive.Protect(func() { o.Set("n", uns[i]) })
 			drive.Protect(func() { o.SetTF(".k", uns[i]) })
+			// a rejected multi-segment tree-form write may have created intermediates, but whatever is in the
+			// containers afterwards must still be one of the seven kinds (observable through the public API)
+			l2 := at.NewList(1)
+			o2 := at.NewObject("k", 1)
+			drive.Protect(func() { l2.SetTF("#4.k", uns[i]) })
+			drive.Protect(func() { l2.SetTF("#7#2", uns[i]) })
+			drive.Protect(func() { l2.SetTF("#0#1.x", uns[i]) })
+			drive.Protect(func() { o2.SetTF(".k#3", uns[i]) })
+			drive.Protect(func() { o2.SetTF(".n.m#2.z", uns[i]) })
+			if _, err := drive.Walk(l2); err != nil {
+				c.Violate("rejected-write-leaves-kindless-slot", fmt.Sprintf("list after rejected multi-segment SetTF of %T", uns[i]), "every slot still has one of the seven kinds", err.Error())
+			}
+			if _, err := drive.Walk(o2); err != nil {
+				c.Violate("rejected-write-leaves-kindless-slot", fmt.Sprintf("object after rejected multi-segment SetTF of %T", uns[i]), "every slot still has one of the seven kinds", err.Error())
+			}
 			wl, _ := drive.Walk(l)
 			wo, _ := drive.Walk(o)
 			if wl == nil || drive.Diff(wl, spec.ListV(spec.IntV(1), spec.IntV(2))) != "" {
@@ -630,6 +645,81 @@ func runC12(c *fw.Ctx) {
 			if wo == nil || drive.Diff(wo, spec.ObjV("k", spec.IntV(1))) != "" {
 				c.Violate("rejected-value-left-a-trace", fmt.Sprintf("object {k:1} after rejected %T", uns[i]), "{k:1}", stringCanon(o))
 			}
+		})
+	})
+	// a native tree with one unsupported leaf is rejected; after the caller has repaired that leaf the very same map /
+	// slice instances must convert (nothing may be remembered from the failed attempt)
+	c.Cases("repair-after-rejection", c.N(40, 2000), false, func(i int, r *rng.R) {
+		t := spec.GenTree(r, spec.Opts{MaxDepth: r.Range(2, 4), MaxWidth: r.Range(2, 4), ScalarBias: 4})
+		nat := drive.Native(t)
+		// find the containers of the native tree and plant the bad leaf in one of them
+		var slots []func(v any)
+		var walk func(n any)
+		walk = func(n any) {
+			switch x := n.(type) {
+			case []any:
+				for j := range x {
+					j := j
+					old := x[j]
+					slots = append(slots, func(v any) {
+						if v == nil {
+							x[j] = old
+						} else {
+							x[j] = v
+						}
+					})
+					walk(x[j])
+				}
+			case map[string]any:
+				for k := range x {
+					k := k
+					old := x[k]
+					slots = append(slots, func(v any) {
+						if v == nil {
+							x[k] = old
+						} else {
+							x[k] = v
+						}
+					})
+					walk(x[k])
+				}
+			}
+		}
+		walk(nat)
+		if len(slots) == 0 {
+			return
+		}
+		in := func() string {
+			return "native tree " + t.Canon() + " with one leaf temporarily replaced by an unsupported value"
+		}
+		guard(c, in, func() {
+			set := slots[r.Intn(len(slots))]
+			set(uintptr(7))
+			ep := entryPoints[r.Intn(len(entryPoints))]
+			if strings.HasSuffix(ep.name, "MapAsync") {
+				ep = entryPoints[0]
+			}
+			pan, _ := drive.Protect(func() { ep.store(nat) })
+			if !pan {
+				c.Violate("unsupported-value-stored", in(), "panic", "stored")
+				return
+			}
+			set(nil) // repair: the original supported leaf is back
+			var sl slot
+			if pan, msg := drive.Protect(func() { sl = ep.store(nat) }); pan {
+				c.Violate("supported-value-rejected-after-earlier-rejection", in()+" through "+ep.name, "the repaired tree converts", "panic: "+msg)
+				return
+			}
+			w, err := drive.Walk(sl.get())
+			if err != nil {
+				c.Violate("converted-container-unwalkable", in(), "container", err.Error())
+				return
+			}
+			if d := drive.Diff(w, t); d != "" {
+				c.Violate("converted-container-differs", in(), t.Canon(), d)
+			}
+			c.Count("repairs_checked")
+			c.Distinct(in())
 		})
 	})
 	// random values of every numeric type
